@@ -244,7 +244,7 @@ def run_shard(prop, tier, seed, shard, nshards, only_index=None):
     cov = LineCoverage(ROOT)
     signal.signal(signal.SIGALRM, _alarm)
     cov.start()
-    out = {'evaluations': 0, 'violations': [], 'known': {}, 'inconclusive': [], 'nviol': 0}
+    out = {'evaluations': 0, 'violations': [], 'known': {}, 'inconclusive': [], 'nviol': 0, 'vsig': {}}
     nontrivial_samples = []
     try:
         if hasattr(mod, 'setup'):
@@ -283,6 +283,9 @@ def run_shard(prop, tier, seed, shard, nshards, only_index=None):
                         k['example'] = {'case': repr(case), 'violation': jsonable(v)}
                 else:
                     out['nviol'] += 1
+                    sig = '%s|%s|%s' % (case.get('op') or case.get('view') or case.get('kind'), v.get('kind'),
+                                        (v.get('detail') or v.get('mode') or '')[:60])
+                    out['vsig'][sig] = out['vsig'].get(sig, 0) + 1
                     if len(out['violations']) < MAX_STORED_VIOLATIONS:
                         out['violations'].append({'index': i, 'case': repr(case), 'violation': jsonable(v)})
         if hasattr(mod, 'teardown'):
@@ -377,7 +380,9 @@ def main_check(prop, tier, seed):
     inconclusive = []
     cov = {}
     samples = []
+    vsig = Counter()
     for r in results:
+        vsig.update(r.get('vsig', {}))
         obs.update(r['obs'])
         ops.update(r['ops'])
         nontriv.update(r['nontrivial'])
@@ -469,6 +474,9 @@ def main_check(prop, tier, seed):
     for fid, k in sorted(known.items()):
         print('KNOWN-FINDING: property=%s %s (%d case(s) this run)' % (prop, findings.describe(fid), k['count']))
     if nviol:
+        print('violation signatures (operator|kind|detail: count):')
+        for sig, cnt in vsig.most_common(40):
+            print('   %6d  %s' % (cnt, sig))
         for path, v in replay_paths[:5]:
             print('VIOLATION property=%s replay=%s' % (prop, path))
             print('   ' + util.short(v['violation'], 700))
